@@ -213,19 +213,19 @@ const agg2CmpBodyRaw = `// check to see if anything needs to be created
 	case same && safe && reuse == nil:
 		{{if .VV -}}
 		if swap{
-			reuse = NewDense(b.Dtype(), b.Shape().Clone(), WithEngine(e))
+			reuse = NewDense(b.Dtype(), b.Shape().Clone(), WithEngine(e), withOrderOf(b))
 		} else{
-			reuse = NewDense(a.Dtype(), a.Shape().Clone(), WithEngine(e))
+			reuse = NewDense(a.Dtype(), a.Shape().Clone(), WithEngine(e), withOrderOf(a))
 		}
 		{{else -}}
-		reuse = NewDense(a.Dtype(), a.Shape().Clone(), WithEngine(e))
+		reuse = NewDense(a.Dtype(), a.Shape().Clone(), WithEngine(e), withOrderOf(a))
 		{{end -}}
 		dataReuse = reuse.hdr()
 		if useIter{
 		iit = IteratorFromDense(reuse)
 		}
 	case !same && safe && reuse == nil:
-		reuse = NewDense(Bool, a.Shape().Clone(), WithEngine(e))
+		reuse = NewDense(Bool, a.Shape().Clone(), WithEngine(e), withOrderOf(a))
 		dataReuse =  reuse.hdr()
 		if useIter{
 		iit = IteratorFromDense(reuse)
@@ -332,12 +332,12 @@ const agg2MinMaxBodyRaw = `// check to see if anything needs to be created
 	if reuse == nil && safe {
 		{{if .VV -}}
 		if swap{
-			reuse = NewDense(b.Dtype(), b.Shape().Clone(), WithEngine(e))
+			reuse = NewDense(b.Dtype(), b.Shape().Clone(), WithEngine(e), withOrderOf(b))
 		} else{
-			reuse = NewDense(a.Dtype(), a.Shape().Clone(), WithEngine(e))
+			reuse = NewDense(a.Dtype(), a.Shape().Clone(), WithEngine(e), withOrderOf(a))
 		}
 		{{else -}}
-		reuse = NewDense(a.Dtype(), a.Shape().Clone(), WithEngine(e))
+		reuse = NewDense(a.Dtype(), a.Shape().Clone(), WithEngine(e), withOrderOf(a))
 		{{end -}}
 		dataReuse = reuse.hdr()
 		if useIter{
